@@ -23,6 +23,8 @@ class Budget:
         self.exceeded = False
 
     def _cb(self, code, offset):
+        if code is _EXIT_CODE:
+            return
         self.steps += 1
         if self.steps > self.limit:
             self.exceeded = True
@@ -51,6 +53,9 @@ class Budget:
         except Exception:
             pass
         return False
+
+
+_EXIT_CODE = Budget.__exit__.__code__
 
 
 def step_budget(n):
